@@ -366,7 +366,7 @@ func runC03(p *Prog, l *Ledger) {
 					if !totalKnown {
 						bad = append(bad, "a request is granted without comparing the total in-flight with the total limit: "+joinWitness(p.DescribePath(pa)))
 					}
-					if binKnown && charged != nil && binObj != charged {
+					if binKnown && charged != nil && binObj != charged && !sameCellValueOnPath(pa, binObj, charged) {
 						bad = append(bad, "the bin that is tested is not the bin that is charged")
 					}
 				} else if totalKnown {
